@@ -54,13 +54,22 @@ Python interpreter: /venv/bin/python . Other jobs on this machine run the same t
     unshare -rn sh -c 'ip link set lo up; cd {wt} && PATH=/venv/bin:$PATH /venv/bin/python -m pytest -q -p no:cacheprovider -x'      (454 tests, ~35 s)
 
 TASK. Produce SIX independent, realistic, strictly BEHAVIOUR-PRESERVING refactorings of code in: {files}.
-"Behaviour-preserving" means: for EVERY input (all documents, all options, all proofreader answers, all call sequences, also a second call on the same objects) the observable results are exactly the same as before - same texts, same position numbers, same diagnostics, same exceptions or absence of exceptions. These are the edits a careful maintainer makes when tidying code: rename local variables or parameters of internal functions, extract a local helper function or a method, or inline one, replace an idiom by an equivalent one (x += [a] <-> x.append(a), a slice by an equivalent slice, a loop by a comprehension or the reverse, if/else chains by early returns, De Morgan, reorder independent statements, introduce a local variable for a repeated sub-expression, split a long expression, swap the operands of a commutative operation, turn nested ifs into `and`, replace `a <= b` by `not a > b`, use enumerate, a conditional expression instead of if/else, `is None` tests rewritten equivalently, str.format / f-strings, a dict/tuple lookup instead of an if-chain, etc.). Make them NON-TRIVIAL: each should restructure between 5 and 25 lines of real logic (not comments, not whitespace, not blank lines), and the six should touch different functions and use different kinds of transformation. {focus} Do NOT change any behaviour, not even in corner cases (empty input, end of text, missing optional arguments, malformed input, unusual white space such as \\r or \\f or no-break space, non-ASCII letters) - think each one through and convince yourself of exact equivalence.
+"Behaviour-preserving" means: for EVERY input (all documents, all options, all proofreader answers, all call sequences, also a second call on the same objects) the observable results are exactly the same as before - same texts, same position numbers, same diagnostics, same exceptions or absence of exceptions. These are the edits a careful maintainer makes when tidying code: rename local variables or parameters of internal functions, extract a local helper function or a method, or inline one, replace an idiom by an equivalent one (x += [a] <-> x.append(a), a slice by an equivalent slice, a loop by a comprehension or the reverse, if/else chains by early returns, De Morgan, reorder independent statements, introduce a local variable for a repeated sub-expression, split a long expression, swap the operands of a commutative operation, turn nested ifs into `and`, replace `a <= b` by `not a > b`, use enumerate, a conditional expression instead of if/else, `is None` tests rewritten equivalently, str.format / f-strings, a dict/tuple lookup instead of an if-chain, etc.). Make them NON-TRIVIAL: each should restructure between 5 and 25 lines of real logic (not comments, not whitespace, not blank lines), and the six should touch different functions and use different kinds of transformation. {focus} {kinds} Do NOT change any behaviour, not even in corner cases (empty input, end of text, missing optional arguments, malformed input, unusual white space such as \\r or \\f or no-break space, non-ASCII letters) - think each one through and convince yourself of exact equivalence.
 
 For each refactoring k = 1..6 write into {out}/k/ :
   - patch.diff : output of `git diff` in the worktree for exactly that change alone (relative to the clean HEAD; make each patch independent: `git checkout -- .` between them). Some files use CRLF line endings - preserve the existing line endings so that the diff touches only the intended lines.
   - notes.md   : what was transformed and a short argument why it is exactly equivalent (including corner cases), plus the test-suite result with the patch applied (must be 454 passed).
 Leave the worktree clean (git checkout -- .) when you are done. Final answer: one line per refactoring.
 '''
+
+KINDS = ('This time prefer kinds of transformation such as: a while loop rewritten as a for loop (or the reverse), '
+         'early `continue` / guard clauses instead of nested ifs, the walrus operator, any() / all() / next() instead of a '
+         'search loop (or the reverse), dict.get / setdefault / `in` tests rewritten, tuple unpacking and parallel assignment, '
+         'chained comparisons, a lambda turned into a def, a nested function turned into a method (or the reverse), an immutable '
+         'constant (tuple, string, compiled pattern that is already constant) moved to a local name, a list built by a '
+         'comprehension instead of append, string concatenation vs join, `x if c else y` vs `c and x or y` only where safe, '
+         'splitting a function into two, merging two adjacent ifs with the same body, reordering independent branches of an '
+         'if/elif chain whose conditions are mutually exclusive.')
 
 NEUTRAL_JOBS = {
     'N7': ('yalafi/parser.py',
@@ -131,7 +140,7 @@ def main():
             r = sh('git', '-C', '/repo', 'worktree', 'add', '--detach', wt)
             if r.returncode:
                 print(r.stderr)
-            open(os.path.join(out, 'prompt.txt'), 'w').write(NEUTRAL.format(wt=wt, out=out, files=files, focus=focus))
+            open(os.path.join(out, 'prompt.txt'), 'w').write(NEUTRAL.format(wt=wt, out=out, files=files, focus=focus, kinds=KINDS))
             print(name, files)
 
 
